@@ -717,6 +717,34 @@ class Model:
 
     def dro_to_roc(self, constr):
 
+        if isinstance(constr, (DecLinConstr, DecRoConstr)):
+            is_equal = (all(constr.sense) if
+                        isinstance(constr.sense, Iterable) else
+                        constr.sense == 1)
+            if is_equal:
+                # an equality of expectations is the pair of inequalities
+                if isinstance(constr, DecLinConstr):
+                    senses = np.zeros(constr.linear.shape[0])
+                    left = DecLinConstr(constr.model,
+                                        constr.linear, constr.const, senses,
+                                        constr.event_adapt,
+                                        constr.fixed, constr.ctype)
+                    right = DecLinConstr(constr.model,
+                                         -constr.linear, -constr.const, senses,
+                                         constr.event_adapt,
+                                         constr.fixed, constr.ctype)
+                else:
+                    roaffine = RoAffine(constr.raffine, constr.affine,
+                                        constr.rand_model)
+                    left = DecRoConstr(roaffine, 0,
+                                       constr.event_adapt, constr.ctype)
+                    right = DecRoConstr(-roaffine, 0,
+                                        constr.event_adapt, constr.ctype)
+                left.ambset = constr.ambset
+                right.ambset = constr.ambset
+
+                return self.dro_to_roc(left) + self.dro_to_roc(right)
+
         drule_list = self.rule_var()
         num_var = self.vt_model.vars[-1].last
         num_scen = self.num_scen
